@@ -1115,6 +1115,11 @@ void AsyncSim::check_response(HRec &r, Attempt &a) {
 			KSI_CalendarHashChain_getPublicationTime(cc, &pt);
 			bool same = false;
 			for (auto *g : good) if (g->info.has_cal && at && g->info.cal_agg == KSI_Integer_getUInt64(at) && pt && g->info.cal_pub == KSI_Integer_getUInt64(pt)) same = true;
+			if (!same) for (auto *g : prem_all) if (g->info.has_cal && at && g->info.cal_agg == KSI_Integer_getUInt64(at) && pt && g->info.cal_pub == KSI_Integer_getUInt64(pt)) {
+				K.fail("C13", "response-without-valid-reply", "reply-arrived-before-the-request-was-sent-but-was-matched-after", "handle #%d: the response it carries is a reply that arrived before the request was sent (an eligible reply arrived later and was ignored)", r.idx);
+				same = true;
+				break;
+			}
 			if (!same) K.fail("C13", "response-content-mismatch", "calendar", "handle #%d: calendar chain is not that of any eligible reply", r.idx);
 		}
 		if (r.sig_extend && !K.failed()) {
